@@ -3,10 +3,13 @@
    ambient                -> goroutines every session runs
    spawns <op>            -> operations started as goroutines by <op>
    table <opA> <opB>      -> the race / panic keys the model predicts for the pair (or "none")
+   locks <entry> <op,op>  -> acquire contexts, channel operations and spawns of the templates of these operations
+                             (the paths of one Go entry function), canonical text compared with the AST pass
+   unlocked <entry> <op,op> -> tracked fields accessed with no lock held / written under read locks only
    mix <op,op,...> <seed> -> "ok": the model's claim for a concurrent mix is that nothing outside the
                              keys predicted for its pairs can be observed (the harness reports
                              "unexpected:<keys>" otherwise) *)
-From PV Require Import Base.Text Model.Locks Model.LocksOps.
+From PV Require Import Base.Text Model.Locks Model.LocksOps Model.LocksStatic.
 Open Scope string_scope.
 
 Definition TAB : string := String (ascii_of_N 9) EmptyString.
@@ -40,6 +43,22 @@ Definition dispatch (kind : string) (args : list string) : string :=
                 | Some x, Some y => out3 (show_keys (predicted_keys x y)) "-" "-"
                 | _, _ => BADARGS
                 end
+    | _ => BADARGS
+    end
+  else if String.eqb kind "locks" then
+    match args with
+    | [_; ops] => match ops_of_names ops with
+                  | Some l => out3 (static_locks l) "-" "-"
+                  | None => BADARGS
+                  end
+    | _ => BADARGS
+    end
+  else if String.eqb kind "unlocked" then
+    match args with
+    | [_; ops] => match ops_of_names ops with
+                  | Some l => out3 (static_unlocked l) "-" "-"
+                  | None => BADARGS
+                  end
     | _ => BADARGS
     end
   else if String.eqb kind "mix" then
